@@ -3,6 +3,9 @@ package main
 import "time"
 
 var configs = map[string]checkCfg{
+	"C11": {QuickBudget: 150 * time.Second, ThoroughBudge: 20 * time.Minute,
+		Rule: "states = distinct byte strings (every string over the 19-symbol byte-class alphabet up to the length bound, shorter ones behind each of the 5 BOMs, 14 real sentences and their Latin-1/cp1252 re-encodings at every cut); transitions = Detect executions; non-trivial = headers containing at least one byte >= 0x80 (distinct strings by construction)",
+		Assumptions: []string{"empty input is not required to carry a charset", "no charset is demanded for ASCII containing ESC/DEL/BEL, nor for invalid UTF-8 that is not Latin-classed"}},
 	"C10": {QuickBudget: 150 * time.Second, ThoroughBudge: 20 * time.Minute,
 		Rule: "states = distinct documents (every ordered selection of <=k members from the 48-member menu with at most one deciding member per kind, x 3 layouts, plus array-wrapped variants); transitions = (document, limit) executions: limit 0, len+1 and every cut from 12 bytes before the end of the first deciding member to the end; non-trivial = documents containing at least one deciding member"},
 	"C08": {QuickBudget: 150 * time.Second, ThoroughBudge: 20 * time.Minute,
